@@ -33,6 +33,11 @@ func genHistory(t *rapid.T, k HistKnobs) *Script {
 	if k.NoGoodLogon && cfg.Approve == "all" && rapid.Bool().Draw(t, "refuseAll") {
 		cfg.Approve = "none"
 	}
+	if cfg.Role == "initiator" {
+		// the initiator's own credentials: both, only a password (token-style), only a user name, none
+		cfg.User = rapid.SampledFrom([]string{"alice", "alice", "", "bob"}).Draw(t, "ownUser")
+		cfg.Pass = rapid.SampledFrom([]string{"secret", "secret", "", "t0ken"}).Draw(t, "ownPass")
+	}
 	g := &hgen{t: t, cfg: cfg, inSeq: 1}
 	sc := &Script{Cfg: cfg}
 	n := rapid.IntRange(1, k.MaxSteps).Draw(t, "nSteps")
